@@ -333,6 +333,10 @@ func init() {
 		for _, cc := range corpus.Certs {
 			check(cc.Cert, "corpus "+cc.File, map[string]interface{}{"file": cc.File})
 		}
+		// the shared zoo (validity extremes, key usages, subjects, names ...)
+		for _, zc := range certZoo() {
+			check(zc.Cert, "zoo "+zc.File, map[string]interface{}{"file": zc.File, "der": hexs(zc.DER)})
+		}
 		// signature-algorithm substitution: the same certificate as issued by CAs holding other kinds of key (RSA,
 		// ECDSA, DSA, EdDSA, unknown) - a dimension the duplicated rules must agree on as well
 		{
